@@ -31,6 +31,7 @@ pub struct World {
     sub_objs: std::sync::Mutex<HashMap<SubId, Arc<SSub>>>,
     eff_lists: std::sync::Mutex<HashMap<ActId, Vec<EffId>>>,
     iters: std::sync::Mutex<HashMap<u32, Box<dyn Iterator<Item = (St, Act)> + Send>>>,
+    sel_objs: std::sync::Mutex<HashMap<SubId, Arc<rs_store::SelectorSubscriber<St, Act, SSel, u64>>>>,
 }
 
 impl World {
@@ -44,6 +45,7 @@ impl World {
             sub_objs: Default::default(),
             eff_lists: Default::default(),
             iters: Default::default(),
+            sel_objs: Default::default(),
         })
     }
     pub fn store(&self, ix: StoreIx) -> Option<Arc<TStore>> {
@@ -273,6 +275,17 @@ impl Subscriber<St, Act> for SSub {
         let w = &self.w;
         let spec = w.scn().sub(self.sub);
         w.ctx.ev(Ev::NotIn { sub: self.sub, act: a.id, st: *st });
+        if spec.forwards {
+            if let Some(f) = w.scn().actions[a.id as usize].forward {
+                let target = w.scn().actions[f as usize].store;
+                if let Some(s) = w.store(target) {
+                    let from = Nest::Sub(self.sub, a.id);
+                    w.ctx.ev(Ev::NInv { from: from.clone(), act: f });
+                    let ok = StoreImpl::dispatch(&s, Act { id: f }).is_ok();
+                    w.ctx.ev(Ev::NRet { from, act: f, ok });
+                }
+            }
+        }
         if let Some(g) = spec.gate {
             w.ctx.gate(g).pass();
         }
@@ -486,6 +499,19 @@ fn do_op(w: &Arc<World>, op: &Op) -> Res {
                     s.subscribe_with_selector(SSel { w: w.clone(), sub: id, fresh }, move |val: u64, a: Act| {
                         w2.ctx.ev(Ev::SelCb { sub: id, val, act: a.id });
                     })
+                }
+                SubKind::SelectorObj { fresh } => {
+                    let id = *sub;
+                    let obj = slock(&w.sel_objs)
+                        .entry(id)
+                        .or_insert_with(|| {
+                            let w2 = w.clone();
+                            Arc::new(rs_store::SelectorSubscriber::new(SSel { w: w.clone(), sub: id, fresh }, move |val: u64, a: Act| {
+                                w2.ctx.ev(Ev::SelCb { sub: id, val, act: a.id });
+                            }))
+                        })
+                        .clone();
+                    s.add_subscriber(obj)
                 }
                 SubKind::Channeled { cap, pol: p, default_ctor } => {
                     let obj = Box::new(SSub { w: w.clone(), sub: *sub });
@@ -733,6 +759,7 @@ pub fn run_case(scn: Arc<Scenario>, log: Arc<std::sync::Mutex<LogInner>>) {
     }
     drop(subs);
     slock(&w.sub_objs).clear();
+    slock(&w.sel_objs).clear();
     let stores: Vec<_> = slock(&w.stores).drain(..).collect();
     drop(stores);
 }
